@@ -145,6 +145,11 @@ structure DmaChannel where
 /-- Index into the 0x40000-word array for `ReadWord/WriteWord(0x20000 + cur)`; `none` when the
 memory hook reports the access as outside the array. -/
 def dspIndex (cur : U32) : Option U32 :=
+  let byte : U32 := (0x20000 + (cur &&& 0x1FFFF)) * 2   -- the 17-bit mask is the repair of the unbounded upstream access
+  if byte.toNat + 1 < 0x80000 then some (byte >>> 1) else none
+
+/-- The pinned upstream index: `0x20000 + cur` unmasked, outside the array for `cur ≥ 0x20000`. -/
+def dspIndexUpstream (cur : U32) : Option U32 :=
   let byte : U32 := (0x20000 + cur) * 2
   if byte.toNat + 1 < 0x80000 then some (byte >>> 1) else none
 
